@@ -252,7 +252,6 @@ Definition o_open_file (s : ofs) (name : str) (flag perm : N) : ofs * (res + han
           | Some (pi, pn) =>
               if negb (on_dir pn) then (s, inl (RFail ENotADirectory))
               else if negb (has om OpenCreate) then (s, inl (RFail ENoSuchFile))
-              else if negb (has om OpenWrite) then (s, inl (RFail EPermDenied))
               else
                 let '(s1, c) := o_create_file s pi abs_path file_name perm in
                 (s1, inr (new_handle c 0 name 0 om))
@@ -260,7 +259,7 @@ Definition o_open_file (s : ofs) (name : str) (flag perm : N) : ofs * (res + han
       | Some (c, cn) =>
           if on_dir cn then
             if has om OpenCreateExcl then (s, inl (RFail EFileExists))
-            else if has om OpenWrite then (s, inl (RFail EIsADirectory))
+            else if has om OpenWrite || has om OpenCreate || has om OpenTruncate then (s, inl (RFail EIsADirectory))
             else (s, inr (new_handle c 0 name 0 om))
           else
             if has om OpenCreateExcl then (s, inl (RFail EFileExists))
